@@ -2,7 +2,8 @@
 
 cargo decides freshness by mtime; `rsync -a` preserves mtimes, so restoring a file to older content with an older
 mtime (a reverted patch, a copy of another tree) would be taken as 'fresh' and a stale build would be tested.
-Files are therefore compared by checksum and every file that is transferred gets the current time."""
+Files are therefore compared by checksum, times are never copied, and every file that is transferred gets the current
+time."""
 import os
 import subprocess
 import time
@@ -10,7 +11,11 @@ import time
 
 def sync(repo, dst):
     os.makedirs(dst, exist_ok=True)
-    p = subprocess.run(['rsync', '-a', '--checksum', '--delete', '--exclude', 'target', '--exclude', '.git',
+    # -rlpgoD = -a without -t: modification times are NOT copied.  With -t rsync also "repairs" the time of a file whose
+    # content is already right, i.e. it can move a file's mtime BACK behind the build products made from a different
+    # content in between, and cargo then takes those stale products for fresh.  Without -t a transferred file gets the
+    # current time and an untouched file keeps the time it has.
+    p = subprocess.run(['rsync', '-rlpgoD', '--checksum', '--delete', '--exclude', 'target', '--exclude', '.git',
                         '--out-format=%n', repo.rstrip('/') + '/', dst.rstrip('/') + '/'],
                        capture_output=True, text=True, check=True)
     now = time.time()
